@@ -35,6 +35,9 @@ struct ux_socket
 
     char path[UX_NAME_MAX+1];
 
+    /* errno of a failed connection; once set, the socket stays failed */
+    int badness_reason;
+
     int64_t cnts[XCM_TP_NUM_MESSAGING_CNTS];
 };
 
@@ -363,12 +366,20 @@ static int ux_send(struct xcm_socket *__restrict s,
 
     TP_GOTO_ON_INVALID_MSG_SIZE(len, UX_MAX_MSG, err);
 
+    if (us->badness_reason != 0) {
+	errno = us->badness_reason;
+	goto err;
+    }
+
     int rc = send(us->fd, buf, len, MSG_NOSIGNAL|MSG_EOR);
 
     ut_assert(rc > 0 ? rc == len : true);
 
-    if (rc < 0)
+    if (rc < 0) {
+	if (errno == ECONNRESET)
+	    us->badness_reason = errno;
 	goto err;
+    }
 
     LOG_SEND_ACCEPTED(s, buf, len);
     XCM_TP_CNT_MSG_INC(us->cnts, from_app, len);
@@ -389,6 +400,12 @@ static int ux_receive(struct xcm_socket *__restrict s,
 
     LOG_RCV_REQ(s, buf, capacity);
 
+    if (us->badness_reason != 0) {
+	errno = us->badness_reason;
+	LOG_RCV_FAILED(s, errno);
+	return -1;
+    }
+
     int rc = recv(us->fd, buf, capacity, MSG_TRUNC);
 
     if (rc > 0) {
@@ -403,6 +420,8 @@ static int ux_receive(struct xcm_socket *__restrict s,
 	return 0;
     } else {
 	LOG_RCV_FAILED(s, errno);
+	if (errno != EAGAIN && errno != EINTR)
+	    us->badness_reason = errno;
 	return -1;
     }
 }
